@@ -206,7 +206,9 @@ def make_send(n_sends: int, concurrent: bool):
                     if not any(r["call_seq"] <= c < r["ret_seq"] for c in con_seq):
                         viols.append(("send-completed-without-confirmation", f"send #{i} returned normally at t={r['ret']} but no L_Data.con arrived after it was handed to the interface at t={r['call']}; cons={cons}; events={events}"))
                 elif res == "ConfirmationError":
-                    if "call_seq" in r and any(r["call_seq"] <= c < r["ret_seq"] for c in con_seq):
+                    # a confirmation arriving at the very instant the timeout expires is a tie (the timer has already cancelled the
+                    # wait when the frame is handled): only confirmations strictly before that instant count
+                    if "call_seq" in r and any(r["call_seq"] <= c < r["ret_seq"] and ct < r["ret"] - 1e-9 for c, ct in zip(con_seq, cons)):
                         viols.append(("confirmation-error-despite-confirmation", f"send #{i} raised ConfirmationError at t={r['ret']} although an L_Data.con arrived at {[c for c in cons if r['call'] <= c < r['ret']]}; events={events}"))
                     if abs(r["ret"] - (r["handover_done"] + T)) > 1e-6:
                         viols.append(("confirmation-error-at-wrong-time", f"send #{i}: hand-over done at {r['handover_done']}, ConfirmationError at {r['ret']} (timeout {T}s); events={events}"))
